@@ -33,6 +33,8 @@ pub struct BodyCfg {
     pub label_structured: bool,
     /// bias towards declaring more locals (C05)
     pub more_locals: bool,
+    /// emit `const` items inside bodies and use them in expressions
+    pub const_items: bool,
     /// known finding: the initial conditional jump of a labelled `while (..)` / `if (..)` loses its difficulty label
     pub exclude_label_on_cond_region: bool,
 }
@@ -40,7 +42,7 @@ pub struct BodyCfg {
 impl BodyCfg {
     pub fn full() -> BodyCfg {
         BodyCfg { structured: true, raw_jumps: true, time_labels: true, diff: true, locals: true, calls: true, assigns: true, interrupts: false,
-                  max_stmts: 14, max_depth: 3, expr_depth: 3, exclude_reg_in_diff_switch: false, dynamic_counts: true, sentinel: true, time_decrease: false, nested_diff_switch: true, const_ternary_cond: true, label_structured: false, more_locals: false, exclude_label_on_cond_region: false }
+                  max_stmts: 14, max_depth: 3, expr_depth: 3, exclude_reg_in_diff_switch: false, dynamic_counts: true, sentinel: true, time_decrease: false, nested_diff_switch: true, const_ternary_cond: true, label_structured: false, more_locals: false, const_items: false, exclude_label_on_cond_region: false }
     }
 }
 
@@ -69,6 +71,9 @@ pub struct BodyGen<'a, 'b> {
     /// textual current time (time is linear in textual order)
     tcur: i32,
     in_diff_switch: bool,
+    consts: Vec<(String, Ty)>,
+    const_marks: Vec<usize>,
+    next_const: usize,
 }
 
 fn tyi(ty: Ty) -> usize { if ty == Ty::Int { 0 } else { 1 } }
@@ -86,7 +91,7 @@ impl<'a, 'b> BodyGen<'a, 'b> {
         let max_locals = if cfg.more_locals { [free(Ty::Int) + 1, free(Ty::Float) + 1] } else { [free(Ty::Int).saturating_sub(1), free(Ty::Float).saturating_sub(1)] };
         let free_loopvars = spec.regs.iter().filter(|r| r.class == RegClass::LoopVar).map(|r| r.id).collect();
         let budget = cfg.max_stmts;
-        BodyGen { tape, spec, avail, cfg, usable, scopes: vec![vec![]], reserved: vec![], live_locals: [0, 0], max_locals, next_local: 0, next_label: 0, loop_depth: 0, budget, free_loopvars, free_scratch, tcur: 0, in_diff_switch: false }
+        BodyGen { tape, spec, avail, cfg, usable, scopes: vec![vec![]], reserved: vec![], live_locals: [0, 0], max_locals, next_local: 0, next_label: 0, loop_depth: 0, budget, free_loopvars, free_scratch, tcur: 0, in_diff_switch: false, consts: vec![], const_marks: vec![], next_const: 0 }
     }
 
     fn reg_ref(&self, r: &RegSpec) -> VarRef {
@@ -137,6 +142,10 @@ impl<'a, 'b> BodyGen<'a, 'b> {
 
     /// An atom of type `ty`: literal or variable read (possibly through a casting sigil).
     pub fn atom(&mut self, ty: Ty) -> Expr {
+        if self.cfg.const_items && self.tape.chance(1, 8) {
+            let cs: Vec<String> = self.consts.iter().filter(|(_, t)| *t == ty).map(|(n, _)| n.clone()).collect();
+            if !cs.is_empty() { let n = self.tape.pick(&cs).clone(); return Expr::Const(n, ty); }
+        }
         let k = self.tape.below(6);
         match k {
             0 | 1 => self.lit(ty),
@@ -321,8 +330,8 @@ impl<'a, 'b> BodyGen<'a, 'b> {
         Some(Stmt::Decl { ty, vars: vec![(name, Some(init))] })
     }
 
-    fn enter_scope(&mut self) { self.scopes.push(vec![]); }
-    fn exit_scope(&mut self) { for (_, t) in self.scopes.pop().unwrap() { self.live_locals[tyi(t)] -= 1; } }
+    fn enter_scope(&mut self) { self.scopes.push(vec![]); self.const_marks.push(self.consts.len()); }
+    fn exit_scope(&mut self) { for (_, t) in self.scopes.pop().unwrap() { self.live_locals[tyi(t)] -= 1; } let m = self.const_marks.pop().unwrap(); self.consts.truncate(m); }
 
     fn block(&mut self, depth: usize) -> Vec<SNode> {
         self.enter_scope();
@@ -557,6 +566,13 @@ impl<'a, 'b> BodyGen<'a, 'b> {
                         continue;
                     }
                     let c = self.call(); out.push(c.into());
+                }
+                _ if self.cfg.const_items && self.tape.chance(1, 3) => {
+                    let ty = if self.tape.bool() { Ty::Float } else { Ty::Int };
+                    let name = format!("KC{}", self.next_const); self.next_const += 1;
+                    let e = match ty { Ty::Int => Expr::Bin("+".into(), Box::new(Expr::LitI(*self.tape.pick(INT_LITS))), Box::new(Expr::LitI(1))), _ => Expr::Bin("*".into(), Box::new(Expr::LitF(*self.tape.pick(FLOAT_LITS))), Box::new(Expr::LitF(2.0))) };
+                    self.consts.push((name.clone(), ty));
+                    out.push(Stmt::ConstDecl { ty, vars: vec![(name, e)] }.into());
                 }
                 _ => {
                     if self.loop_depth > 0 && self.cfg.structured && self.avail.jmp && self.tape.chance(1, 2) {
